@@ -230,6 +230,7 @@ func init() {
 	builtinMods["(*github.com/tokenized/pkg/wire.MsgTx).Deserialize"] = []string{ghConsumed, ghCount, ghFailed}
 	inlineDeps["github.com/tokenized/pkg/wire.ReadVarInt"] = true
 	inlineDeps["github.com/tokenized/pkg/wire.ReadVarIntN"] = true
+	builtinModels["(*github.com/tokenized/pkg/wire.MsgTx).SerializeSize"] = modelOpaque
 	builtinModels["github.com/tokenized/pkg/wire.messageError"] = modelErrNew
 	builtinModels["(*github.com/tokenized/pkg/wire.MessageHeader).CommandString"] = modelOpaque
 	builtinModels["(github.com/tokenized/pkg/wire.MessageHeader).CommandString"] = modelOpaque
